@@ -23,6 +23,12 @@
 //     (sequential float64 addition of <= 200 terms errs by < 2.3e-14*sum|v|).
 //     When sum|v| >= 2^1023 an intermediate sum may overflow and Sum is not
 //     checked.
+//   - "Exact sum" of int64 measurements: the mathematical sum (math/big) of
+//     the measurements the point holds, compared exactly whenever it is an
+//     int64, also when a prefix of the measurements sums to a value outside
+//     the int64 range (two's complement addition is exact modulo 2^64, so the
+//     total is not affected by such an excursion); when the mathematical total
+//     itself is not an int64 the Sum is not checked.
 //   - Min/Max are compared with == (so -0 and +0 are interchangeable).
 //   - Scale underflow: with MaxSize 1 or 2 some value sets cannot be held at
 //     any scale >= -10. The SDK reports "exponential histogram scale
@@ -53,6 +59,7 @@ import (
 	"fmt"
 	"log"
 	"math"
+	"math/big"
 	"strings"
 	"sync"
 	"testing"
@@ -231,6 +238,7 @@ type runner struct {
 	// facts for classes / the non-trivial rule
 	rescaled, grewLeft, grewRight, nearBoundary, scaleLE0, scaleGT0, underflow, knownOffByOne bool
 	multiDown, onBound, multiBucket, sumExact, sumTol, sumRisky, emptyPoint, intBig           bool
+	intPrefixOut, intTotalOut                                                                 bool
 	nonEmptyPoints                                                                            int
 }
 
@@ -619,10 +627,17 @@ func (r *runner) checkNumbers(where string, isInt bool, p *point, kept []mv) {
 		r.bad("minmax_missing", "%s: Min/Max not reported (NoMinMax is false)", where)
 	}
 	if isInt {
-		mn, mx, sum := kept[0].i, kept[0].i, int64(0)
+		// the reference sum is the mathematical one (math/big); whether a
+		// prefix of it leaves the int64 range does not matter, only whether
+		// the total is an int64
+		mn, mx, sum := kept[0].i, kept[0].i, new(big.Int)
+		prefixOut := false
 		for _, m := range kept {
 			mn, mx = min(mn, m.i), max(mx, m.i)
-			sum += m.i // cannot overflow: see genCtx.int
+			sum.Add(sum, big.NewInt(m.i))
+			if !sum.IsInt64() {
+				prefixOut = true
+			}
 			if m.i > 1<<53 || m.i < -(1<<53) {
 				r.intBig = true
 			}
@@ -633,8 +648,15 @@ func (r *runner) checkNumbers(where string, isInt bool, p *point, kept []mv) {
 		if p.hasMx && p.maxI != mx {
 			r.bad("max", "%s: Max = %d, largest measurement %d", where, p.maxI, mx)
 		}
-		if p.sumI != sum {
-			r.bad("sum", "%s: Sum = %d, exact sum %d", where, p.sumI, sum)
+		switch {
+		case !sum.IsInt64():
+			r.intTotalOut = true // no int64 is the exact sum
+		case p.sumI != sum.Int64():
+			r.bad("sum", "%s: Sum = %d, exact sum %s (a prefix of the measurements sums to a value outside the int64 range: %v)", where, p.sumI, sum, prefixOut)
+		default:
+			if prefixOut {
+				r.intPrefixOut = true
+			}
 		}
 		return
 	}
@@ -715,6 +737,8 @@ func (r *runner) classify() {
 	info.ClassIf(r.sumRisky, "sum_not_checked(overflow_possible)")
 	info.ClassIf(r.emptyPoint, "point_without_measurements")
 	info.ClassIf(r.intBig, "int64_beyond_2^53")
+	info.ClassIf(r.intPrefixOut, "int64_prefix_sum_outside_int64_total_inside(sum_checked)")
+	info.ClassIf(r.intTotalOut, "int64_total_outside_int64(sum_not_checked)")
 	info.ClassIf(r.nonEmptyPoints == 0, "no_point_checked")
 }
 
